@@ -27,7 +27,7 @@ LEVEL = "model_checking"
 MANIFEST = {
     "technique": "TLA+ relation ResourceFit.Ok + pipeline model ResourceFitAlg checked by TLC; TLC enumerates pool configurations x requests, the harness drives the real _create_jobs/select_inst_coll with size strings, TLC judges every outcome (call/return conformance, B3)",
     "text": "TLC model-checks the selection pipeline (storage limit, memory-driven core adjustment, packability rounding, worker check, pool matching) against the relation 'placed => granted >= requested in cores, memory, storage, fits one worker, pool matches; rejected => no configured matching pool could serve it' on a bounded universe of 1-3 pool configurations x requests for both clouds, then the same universe is driven through the real front end code and every outcome is judged by TLC with that relation. Machine tables are data read from the repository at run time.",
-    "note": "Trusts: TLC + CommunityModules; the rendering of abstract amounts as size strings (checks/_fn_cloud.py); the recording database stub; cloud disk limits (64 TiB / 32 TiB) are constants of the spec. Pools with non-power-of-two cores are outside the universe (the billing code asserts power-of-two cores for pools). Cheapest-pool choice is not part of the property.",
+    "note": "Trusts: TLC + CommunityModules; the rendering of abstract amounts as size strings (checks/_fn_cloud.py); the recording database stub; cloud disk limits (64 TiB / 32 TiB) are constants of the spec. Pool sizes come from the service's own possible_cores_from_worker_type: power-of-two sizes are covered in full, the remaining accepted sizes by one pool each (suite odd-pools). Cheapest-pool choice is not part of the property.",
     "design_ref": "DESIGN.md section 5, C12",
 }
 
@@ -46,6 +46,8 @@ class _StubGap(Exception):
 
 class _Strict:
     def __getattr__(self, name):
+        if name.startswith("__"):
+            raise AttributeError(name)
         raise _StubGap(f"{type(self).__name__}.{name} is not provided by the C12 harness")
 
 
@@ -328,7 +330,7 @@ def run(ctx):
                     "stored": detail.get("stored"), "inst_coll": detail.get("inst_coll"), "rejected": detail.get("rejected")})
     ctx.assume(
         "the deployment's CLOUD equals the request's cloud (a job spec has no cloud field); front_end.CLOUD is set per call",
-        "pool workers have power-of-two cores and a VM type present in the repository's machine table (InstanceConfig.quantified_resources asserts power-of-two cores for pools; 96/48/20/72-core pools, although listed as valid pool sizes, are excluded)",
+        "pool sizes are the ones the service's pool-configuration form accepts (possible_cores_from_worker_type); sizes that are not a power of two are only exercised by the odd-pools suite (one pool, a one-core request by amount and by tier); a worker's memory is cores x the family's memory per core",
         "the largest disk one VM can have is 64 TiB on gcp and 32 TiB on azure (constants of the specification)",
         "a request naming a memory tier asks for the cloud's worker family with the least/middle/most memory per core, not for an amount",
         "cpu values in the universe are exact binary fractions (power-of-two quarter cores, and 0.125/0.75/1.5/3/6 as non-packable ones); decimal truncation in parse_cpu_in_mcpu belongs to C25",
